@@ -11,26 +11,26 @@ NOTE = ("Trusted: rustc/Kani MIR->goto translation and Kani's alloc models, CBMC
 
 # id -> (claimed?, level text, design ref)
 CLAIMS = {
- "C01": "Every public parse entry and every accessor/iterator of its result is symbolically executed on all byte strings up to the stated lengths (64 B fixed-layout, SDES 16 B / items 300 B, FCI 16-40 B; thorough 256 B / 24 B / 1024 B); absence of any reachable panic and explicit iterator step bounds are decided by the solver; NACK and compound iteration as one step from every reachable state (induction on the asserted rank). Bounded, not a proof.",
- "C02": "Builder -> bytes -> parser with every SR/RR/report-block field symbolic over its full range and padding any u8; block counts 0,1,2 (thorough 3,31,32); one symbolic block index compared. All values within those shapes are covered by the SAT queries.",
+ "C01": "Every public parse entry and every accessor/iterator of its result is symbolically executed on all byte strings up to the stated lengths (loop-free parsers 300 B, iterating ones 64 B plus full-count RR/SR of 776/796 B, SDES 16 B / items 300 B, FCI 16-40 B; thorough 1100 B / 256 B / 24 B / 1024 B); absence of any reachable panic and explicit iterator step bounds are decided by the solver; NACK and compound iteration as one step from every reachable state (induction on the asserted rank). Bounded, not a proof.",
+ "C02": "Builder -> bytes -> parser with every SR/RR/report-block field symbolic over its full range and padding any u8; block counts 0,1,2 and RR with 31 (thorough 3,31,32); one symbolic block index compared. All values within those shapes are covered by the SAT queries.",
  "C04": "BYE (0..2 sources, reason length symbolic 0..24 with symbolic content, limits 254/255, padding <= 12; thorough: 31/32 sources, 128-byte reasons, limits 252..256, any legal padding) and APP (name 0..5 bytes incl. non-ASCII, payload 0..32) build->parse round trips into 0xA5-prefilled buffers; sources, reason bytes, name fill, payload and padding compared at symbolic indices.",
  "C05": "Feedback build->parse->parse_fci round trips: PLI (any padding), SLI 1/3 entries, RPSI 0..8 bytes x any overrun x any payload type compared bit by bit, NACK 1 symbolic sequence through the real BTreeSet builder plus the encoder unit (hook) over <= 4 ascending values composed with the crate's decoder, FIR 1 symbolic entry (HashMap, RandomState stubbed). Thorough widens each.",
- "C06": "For every builder type (SR, RR, BYE, APP, Unknown, SDES packet/chunk/item, both feedback builders x PLI/SLI/RPSI/NACK/FIR borrowed and owned, PacketBuilder wrapper, compounds incl. nested and third-party members) with text/payload lengths symbolic over their full ranges and the buffer length symbolic 0..=n+slack: announced size == written size, OutputTooSmall(n) below, same error when rejected, n % 4 == 0.",
+ "C06": "For every builder type (SR, RR, BYE, APP, Unknown, SDES packet/chunk/item, both feedback builders x PLI/SLI/RPSI/NACK/FIR borrowed and owned, PacketBuilder wrapper, compounds incl. nested and third-party members) with text/payload lengths symbolic over their full ranges and the buffer length symbolic 0..=n+slack: announced size == written size, OutputTooSmall(n) below, same error when rejected, n % 4 == 0. Multi-byte texts (byte length != character count) in symbolic-length and short concrete instances; prefix() called on every SDES item.",
  "C08": "Every input string up to the stated length (64 B quick / 256 B thorough; SDES 16/24 B) is covered by one SAT query per parser: acceptance implies exact framing and the header accessors return the header bytes. Bounded, not a proof.",
- "C09": "(a) every accepted input up to 64-80 B (256 B thorough): accessors equal reference big-endian reads at the RFC offsets and returned slices are the input's own memory at the RFC offset (pointer comparison); (b) packets from the reference encoder over symbolic fields are accepted with the same field values.",
- "C16": "calculate_size of every builder with lengths symbolic across every limit (reason/value/prefix 0..300, APP/Unknown payload 0..300000, counts 31/32, names 4/5, payload type 127/128, overrun 8/9): Err iff a rule of the statement is violated and the error names a violated rule with the offending value. The >65536-word rule is a listed known finding (twin harnesses).",
- "C18": "Every rejection by every packet parser, the generic parser, compound parsing, report blocks, FCI parsers and the SDES units on all inputs up to 64 B (256 B thorough; SDES 16/24 B): error fields are those of the input (version, types, expected vs actual ordering, exact minimum / header length).",
+ "C09": "(a) every accepted input up to 300 B for APP/Unknown/feedback headers and 64-80 B for SR/RR/BYE (1100 B / 256 B thorough): accessors equal reference big-endian reads at the RFC offsets and returned slices are the input's own memory at the RFC offset (pointer comparison); (b) packets from the reference encoder over symbolic fields are accepted with the same field values.",
+ "C16": "calculate_size of every builder with lengths symbolic across every limit (reason/value/prefix 0..300, APP/Unknown payload 0..300000, counts 31/32, names 4/5, payload type 127/128, overrun 8/9; concrete multi-byte texts at the byte limits): Err iff a rule of the statement is violated and the error names a violated rule with the offending value. The >65536-word rule is a listed known finding (twin harnesses).",
+ "C18": "Every rejection by every packet parser, the generic parser, compound parsing, report blocks, FCI parsers and the SDES units on all inputs up to 300 B for the fixed-layout packet parsers (1100 B thorough), 64/256 B for the generic parser, SDES 16/24 B: error fields are those of the input (version, types, expected vs actual ordering, exact minimum / header length).",
  "C03": "SDES builder -> bytes -> Sdes::parse with shapes (chunks x items) 0, 1x0, 1x1, 2x0 (thorough: 1x2, 2x1, 2x(2,1), 2x(0,1), 3x1, 1x3, owned items, limits 252..256, PRIV sums 253..255, any legal padding), SSRCs fully symbolic (leading zero bytes included), item types symbolic non-zero (PRIV and non-PRIV), value/prefix lengths symbolic with symbolic content; chunk count, SSRC, item count, type, value and prefix bytes compared at symbolic indices.",
  "C07": "One symbolic byte index of every writer's output is compared with a closed-form reference image written from the RFC figures (header, big-endian fields, length-prefixed text, SDES terminator/fill, padding trailer) over buffers pre-filled with 0xA5; NACK word encoder as a unit against the greedy minimum cover; FIR order-insensitive; compound = concatenation of member images.",
  "C10": "A three-valued reference tokeniser (RFC 3550 6.5, one flat loop over the bytes) classifies every SDES-framed string of 4..16 bytes (24 thorough) over the full byte alphabet; parser Ok on a must-reject string or Err on a well-formed one is a violation, yielded chunks/items must be the tokenised byte ranges (pointer comparison), chunk.length() the encoded size; item unit for every string <= 300 B, chunk unit <= 16/32 B; reference-encoded packets must be accepted with their tokens.",
  "C11": "Compound::parse accepts exactly the non-empty strings the reference tiling partitions (<= 64 B, 256 B thorough); one next() from every reachable iterator state (hook) returns the generic parser's result for the tile, advances by the tile length, stops after an error or the last tile and stays stopped; the clauses for any number of tiles follow by induction on the number of calls.",
  "C12": "For every byte string of 4..32 bytes (128 thorough; SDES-typed inputs 12/16) and each of the 7 conversion targets: variant selected by the type byte, outcome equal to the typed parser (fingerprint of accessors and slice pointers / equal error values), conversions by reference and by value: matching variant -> value, other known variant -> PacketTypeMismatch{actual, requested}, unknown -> exactly the typed parser's result.",
  "C13": "Pairs of reference-encoded packets (without and with RFC 3550 padding, padding symbolic in {4,8,12}; any legal padding in thorough) for SR, RR, BYE, APP, SDES and feedback packets with every FCI type: same parser accepts both, padding() reports the amount, every content accessor agrees at a symbolic index.",
- "C14": "Compounds of 0..3 members over RR, SR, BYE, APP, Unknown, PSFB+SLI, PacketBuilder-wrapped, SDES (last and non-last), nested compound and a third-party writer with symbolic fields and paddings: accepted iff all members valid and no non-last padding, size = sum, byte i = the member image's byte, parse-back yields one packet per member equal to the member parsed alone.",
- "C15": "For every accepted feedback packet <= 40 B (64 thorough) and all five FCI types in both kinds: decoding succeeds only for the matching kind and format; FIR/SLI entry k, RPSI payload type and bit string are the RFC fields of the FCI bytes (pointer comparison for the bit string); PLI only empty; NACK as one step from every (word, slot) position against the RFC sequence (whole 2^32 word space in one query), by induction for any number of words.",
+ "C14": "Compounds of 0..3 members over RR, SR, BYE, APP, Unknown, PSFB+SLI, PacketBuilder-wrapped, SDES (last and non-last), nested compound and a third-party writer (also non-last, reporting no padding as None or Some(0)) with symbolic fields and paddings; 'requests padding' comes from the configuration record, not from get_padding(): accepted iff all members valid and no non-last padding, size = sum, byte i = the member image's byte, parse-back yields one packet per member equal to the member parsed alone.",
+ "C15": "For every accepted feedback packet <= 40 B (64 thorough) and all five FCI types in both kinds: decoding succeeds only for the matching kind and format; FIR/SLI entry k, RPSI (FCI up to 300 B, 1100 thorough) payload type and bit string are the RFC fields of the FCI bytes (pointer comparison for the bit string); PLI only empty; NACK as one step from every (word, slot) position against the RFC sequence (whole 2^32 word space in one query), by induction for any number of words.",
  "C17": "Two buffers of equal symbolic length with independent arbitrary prior contents and one symbolic observed index: same result, written bytes independent of prior contents, bytes beyond n and all bytes on failure unchanged, for every builder shape of C07 plus SDES chunk/item writers, FIR and a compound.",
- "C19": "A family of third-party packet types Custom<PT, MIN> built only on the public helpers (PT in {0,192,242,255}, MIN in {4,8,12,28}): header/padding writers against the RFC image for every buffer length multiple of 4 up to 1024 and every padding; check_packet against a three-valued framing predicate on all strings <= 32-48 B; written packets come back as Unknown with the exact bytes, convert back with every field, embed in compounds; UnknownBuilder against the reference image.",
- "C20": "Call histories as data: K = 3 (2 for list builders) symbolic choices among each builder's setters with symbolic arguments against a canonical builder made from a shadow record (last value per setter, lists in insertion order): same size/error and same bytes at a symbolic index; owned/borrowed variants, PacketBuilder wrapper, one-member compound, NACK and FIR re-adds as alternative constructions.",
+ "C19": "A family of third-party packet types Custom<PT, MIN> built only on the public helpers (PT in {0,192,242,255}, MIN in {4,8,12,28}): header/padding writers against the RFC image for every buffer length multiple of 4 up to 1024 and every padding; check_packet against a three-valued framing predicate on all strings <= 300 B (1100 thorough); written packets come back as Unknown with the exact bytes, convert back with every field, embed in compounds; UnknownBuilder against the reference image.",
+ "C20": "Call histories as data: K = 3 (2 for list builders) symbolic choices among each builder's setters with symbolic arguments against a canonical builder made from a shadow record (last value per setter, lists in insertion order): same size/error and same bytes at a symbolic index; owned/borrowed variants, PacketBuilder wrapper, one-member compound, FIR re-add (last sequence wins, through the real HashMap) in quick, NACK re-add and two-builder FIR re-add in thorough.",
 }
 # properties whose quick check has been seen green on the unchanged tree at this revision
 READY = " ".join("C%02d" % i for i in range(1, 21)).split()
